@@ -4,6 +4,7 @@ package props
 // Nothing in here knows anything about barcodes.
 
 import (
+	"bytes"
 	"encoding/binary"
 	"encoding/json"
 	"fmt"
@@ -223,6 +224,41 @@ type Replay struct {
 	Check    string          `json:"check"`
 	Case     json.RawMessage `json:"case"`
 	Observed string          `json:"observed"`
+	// Before: cases executed (outcome ignored) before the case when the failure depends on the calls that preceded it
+	// (pairs of contents with equal digests run back to back)
+	Before []ReplayStep `json:"before,omitempty"`
+}
+
+type ReplayStep struct {
+	Check string          `json:"check"`
+	Case  json.RawMessage `json:"case"`
+}
+
+// prelude recording: while preludeOn is set (sequential parts only), every case noted by noteCase is kept; a failure
+// reported by failf then carries the cases that ran before the failing one.
+var (
+	preludeOn    bool
+	preludeSteps []ReplayStep
+)
+
+func preludeStart() { replayMu.Lock(); preludeOn, preludeSteps = true, nil; replayMu.Unlock() }
+func preludeStop()  { replayMu.Lock(); preludeOn, preludeSteps = false, nil; replayMu.Unlock() }
+
+func preludeAdd(check string, c any) {
+	if raw, err := json.Marshal(c); err == nil {
+		replayMu.Lock()
+		preludeSteps = append(preludeSteps, ReplayStep{Check: check, Case: raw})
+		replayMu.Unlock()
+	}
+}
+
+func runPrelude(rp Replay) {
+	for _, st := range rp.Before {
+		if fn := replayFns[st.Check]; fn != nil {
+			ct := &collectTB{}
+			ct.guard(func() { fn(ct, st.Case) })
+		}
+	}
 }
 
 var replayFns = map[string]func(t TB, raw json.RawMessage){}
@@ -253,8 +289,15 @@ func failf(t TB, property, check string, c any, format string, args ...any) {
 				msg = msg[:2000] + "…"
 			}
 			rp := Replay{Property: property, Check: check, Case: raw, Observed: msg}
-			b, _ := json.MarshalIndent(rp, "", " ")
 			replayMu.Lock()
+			if preludeOn {
+				for _, st := range preludeSteps {
+					if st.Check != check || !bytes.Equal(st.Case, raw) {
+						rp.Before = append(rp.Before, st)
+					}
+				}
+			}
+			b, _ := json.MarshalIndent(rp, "", " ")
 			_ = os.MkdirAll(filepath.Join(dir, property), 0o755)
 			_ = os.WriteFile(filepath.Join(dir, property, fmt.Sprintf("%s.shard%d.json", check, shard())), b, 0o644)
 			replayMu.Unlock()
@@ -281,6 +324,7 @@ func TestReplay(t *testing.T) {
 	if fn == nil {
 		t.Fatalf("unknown check %q", rp.Check)
 	}
+	runPrelude(rp)
 	fn(t, rp.Case)
 }
 
@@ -309,7 +353,7 @@ func TestReplayDir(t *testing.T) {
 			t.Fatalf("%s: unknown check %q", f, rp.Check)
 		}
 		st.Eval()
-		ok := t.Run(filepath.Base(f), func(t *testing.T) { fn(t, rp.Case) })
+		ok := t.Run(filepath.Base(f), func(t *testing.T) { runPrelude(rp); fn(t, rp.Case) })
 		if !ok {
 			// make the driver point at the regression file itself
 			fmt.Printf("REGRESSION-FAILED %s\n", f)
@@ -449,6 +493,15 @@ func try(fn func()) (pv any) { return enc.Try(fn) }
 var caseLog = os.Getenv("VERIF_CASE_LOG")
 
 func noteCase(property, check string, c any) {
+	if preludeOn {
+		if raw, err := json.Marshal(c); err == nil {
+			replayMu.Lock()
+			if preludeOn && len(preludeSteps) < 16 {
+				preludeSteps = append(preludeSteps, ReplayStep{Check: check, Case: raw})
+			}
+			replayMu.Unlock()
+		}
+	}
 	if caseLog == "" {
 		return
 	}
